@@ -323,4 +323,300 @@ theorem cinv_exec : ∀ (as : List CAct) {c : Cfg}, CInv c → CInv (cexec c as)
   | [], _, h => h
   | a :: as, _, h => cinv_exec as (cinv_step a h)
 
+/-! ## PRE-JOIN world -/
+
+def Play.all (p : Play) : List Nat :=
+  (p.deliv.map (·.2.idx)) ++ (p.q.queue.map (·.idx)) ++ (p.dropped.map (·.idx)) ++ (p.lost.map (·.idx))
+
+structure PInv (p : Play) : Prop where
+  q : QInv p.q
+  once : ∀ i, p.all.count i = if i < p.next then 1 else 0
+  qSorted : p.q.queue.Pairwise (fun a b => a.idx < b.idx)
+  qHi : ∀ m ∈ p.q.queue, m.idx < p.next
+  dHi : ∀ d ∈ p.deliv, d.2.idx < p.next
+  ovf : p.q.overflowed = true → p.disconnected = true
+
+/-- ordering part, maintained as long as no direct write happens while the queue is non-empty -/
+structure POrd (p : Play) : Prop where
+  dOrder : p.deliv.Pairwise (fun x y => x.1 = y.1 → y.2.idx < x.2.idx)
+  qNewer : ∀ m ∈ p.q.queue, ∀ d ∈ p.deliv, d.2.idx < m.idx
+
+theorem pinv_init : PInv {} where
+  q := qinv_init
+  once i := by simp [Play.all]
+  qSorted := List.Pairwise.nil
+  qHi m hm := by cases hm
+  dHi d hd := by cases hd
+  ovf h := by cases h
+
+theorem pord_init : POrd {} := ⟨List.Pairwise.nil, fun m hm => by cases hm⟩
+
+/-- the generic branch of `handlePluginMessage` writes directly (both phases complete) -/
+def Play.goesDirect (p : Play) : Bool :=
+  match p.cur with
+  | none => false
+  | some s => p.hasConn s && p.inPlay s && (p.bphase s != .transition) && p.clientComplete && (p.bphase s).complete
+
+/-- the op does not write directly past a non-empty queue -/
+def Play.opOK (p : Play) : POp → Bool
+  | .msg _ => !p.goesDirect || p.q.queue.isEmpty
+  | _ => true
+
+theorem pinv_drainTo {p : Play} (b : Nat) (h : PInv p) : PInv (p.drainTo b).1 := by
+  unfold Play.drainTo
+  simp only [Q.drain]
+  refine ⟨⟨Nat.zero_le _, rfl, Nat.zero_le _, fun _ => rfl⟩, ?_, List.Pairwise.nil, ?_, ?_, h.ovf⟩
+  · intro i
+    have := h.once i
+    simp only [Play.all, List.map_nil, List.map_append, List.map_reverse, List.map_map, List.count_append,
+      List.count_nil, List.count_reverse] at this ⊢
+    have e : (List.map ((fun x : Nat × Msg => x.2.idx) ∘ fun m => (b, m)) p.q.queue) = p.q.queue.map (·.idx) := by
+      apply List.map_congr_left; intro a _; rfl
+    rw [e]; omega
+  · intro m hm; cases hm
+  · intro d hd
+    rcases List.mem_append.mp hd with hd | hd
+    · rw [List.mem_reverse, List.mem_map] at hd
+      obtain ⟨m, hm, rfl⟩ := hd
+      exact h.qHi m hm
+    · exact h.dHi d hd
+
+theorem pord_drainTo {p : Play} (b : Nat) (h : PInv p) (ho : POrd p) : POrd (p.drainTo b).1 := by
+  unfold Play.drainTo
+  simp only [Q.drain]
+  refine ⟨?_, fun m hm => by cases hm⟩
+  show ((p.q.queue.map fun m => (b, m)).reverse ++ p.deliv).Pairwise _
+  rw [List.pairwise_append]
+  refine ⟨?_, ho.dOrder, ?_⟩
+  · rw [List.pairwise_reverse, List.pairwise_map]
+    exact List.Pairwise.imp (R := fun a b : Msg => a.idx < b.idx)
+      (S := fun a c : Msg => (b, c).fst = (b, a).fst → (b, a).snd.idx < (b, c).snd.idx)
+      (fun hab _ => hab) h.qSorted
+  · intro x hx y hy _
+    rw [List.mem_reverse, List.mem_map] at hx
+    obtain ⟨m, hm, rfl⟩ := hx
+    exact ho.qNewer m hm y hy
+
+/-- a message that is not handed to a backend and not queued -/
+theorem pinv_drop {p p' : Play} (m : Msg) (h : PInv p) (hm : m.idx = p.next) (hq : p'.q = p.q)
+    (hn : p'.next = p.next + 1) (hd : p'.deliv = p.deliv) (hdr : p'.dropped = m :: p.dropped)
+    (hl : p'.lost = p.lost) (hdis : p'.disconnected = p.disconnected) : PInv p' := by
+  refine ⟨hq ▸ h.q, ?_, hq ▸ h.qSorted, ?_, ?_, by rw [hq, hdis]; exact h.ovf⟩
+  · intro i
+    have := h.once i
+    simp only [Play.all, hq, hn, hd, hdr, hl, List.map_cons, List.count_append, List.count_cons] at this ⊢
+    by_cases hi : i = p.next
+    · subst hi
+      rw [if_neg (Nat.lt_irrefl _)] at this; rw [if_pos (Nat.lt_succ_self _)]
+      simp only [hm, BEq.rfl, if_true]; omega
+    · have hb : ¬ ((m.idx == i) = true) := by rw [hm]; simpa using fun e => hi e.symm
+      rw [if_neg hb]
+      by_cases hlt : i < p.next
+      · rw [if_pos hlt] at this; rw [if_pos (by omega)]; omega
+      · rw [if_neg hlt] at this; rw [if_neg (by omega)]; omega
+  · intro q hq'; rw [hq] at hq'; rw [hn]; exact Nat.lt_succ_of_lt (h.qHi q hq')
+  · intro d hd'; rw [hd] at hd'; rw [hn]; exact Nat.lt_succ_of_lt (h.dHi d hd')
+
+theorem pinv_firstJoin {p : Play} (h : PInv p) : PInv p.firstJoin := by
+  unfold Play.firstJoin; split
+  · exact h
+  · exact ⟨h.q, h.once, h.qSorted, h.qHi, h.dHi, h.ovf⟩
+theorem pinv_completeJoin {p : Play} (d : Nat) (h : PInv p) : PInv (p.completeJoin d) := by
+  unfold Play.completeJoin; split
+  · exact h
+  · exact ⟨h.q, h.once, h.qSorted, h.qHi, h.dHi, h.ovf⟩
+theorem pord_firstJoin {p : Play} (h : POrd p) : POrd p.firstJoin := by
+  unfold Play.firstJoin; split
+  · exact h
+  · exact ⟨h.dOrder, h.qNewer⟩
+theorem pord_completeJoin {p : Play} (d : Nat) (h : POrd p) : POrd (p.completeJoin d) := by
+  unfold Play.completeJoin; split
+  · exact h
+  · exact ⟨h.dOrder, h.qNewer⟩
+
+theorem pinv_pstep {p : Play} (op : POp) (h : PInv p) : PInv (pstep p op).1 := by
+  cases op with
+  | msg len =>
+    unfold pstep
+    simp only
+    cases hc : p.cur with
+    | none => exact pinv_drop ⟨p.next, len, _⟩ h rfl rfl rfl rfl rfl rfl rfl
+    | some s =>
+      simp only
+      split
+      · exact pinv_drop ⟨p.next, len, _⟩ h rfl rfl rfl rfl rfl rfl rfl
+      split
+      · exact pinv_drop ⟨p.next, len, _⟩ h rfl rfl rfl rfl rfl rfl rfl
+      split
+      · exact pinv_drop ⟨p.next, len, _⟩ h rfl rfl rfl rfl rfl rfl rfl
+      split
+      · -- direct
+        refine ⟨h.q, ?_, h.qSorted, fun q hq => Nat.lt_succ_of_lt (h.qHi q hq), ?_, h.ovf⟩
+        · intro i
+          have := h.once i
+          simp only [Play.all, List.map_cons, List.count_append, List.count_cons] at this ⊢
+          by_cases hi : i = p.next
+          · subst hi
+            rw [if_neg (Nat.lt_irrefl _)] at this; rw [if_pos (Nat.lt_succ_self _)]
+            simp only [BEq.rfl, if_true]; omega
+          · have hb : ¬ ((p.next == i) = true) := by simpa using fun e => hi e.symm
+            rw [if_neg hb]
+            by_cases hlt : i < p.next
+            · rw [if_pos hlt] at this; rw [if_pos (by omega)]; omega
+            · rw [if_neg hlt] at this; rw [if_neg (by omega)]; omega
+        · intro d hd
+          rcases List.mem_cons.mp hd with hd | hd
+          · rw [hd]; exact Nat.lt_succ_self _
+          · exact Nat.lt_succ_of_lt (h.dHi d hd)
+      · -- enqueue
+        rcases enqueue_cases p.q ⟨p.next, len, some s⟩ with ⟨ho, he⟩ | ⟨ho, _, he⟩ | ⟨ho, _, _, he⟩
+        · rw [he]; exact pinv_drop ⟨p.next, len, _⟩ h rfl rfl rfl rfl rfl rfl rfl
+        · rw [he]; simp only
+          refine ⟨⟨Nat.zero_le _, rfl, Nat.zero_le _, fun _ => rfl⟩, ?_, List.Pairwise.nil, (fun q hq => by cases hq),
+            (fun d hd => Nat.lt_succ_of_lt (h.dHi d hd)), (fun _ => rfl)⟩
+          intro i
+          have := h.once i
+          simp only [Play.all, List.map_nil, List.map_cons, List.map_append, List.map_reverse, List.count_append,
+            List.count_cons, List.count_nil, List.count_reverse] at this ⊢
+          by_cases hi : i = p.next
+          · subst hi
+            rw [if_neg (Nat.lt_irrefl _)] at this; rw [if_pos (Nat.lt_succ_self _)]
+            simp only [BEq.rfl, if_true]; omega
+          · have hb : ¬ ((p.next == i) = true) := by simpa using fun e => hi e.symm
+            rw [if_neg hb]
+            by_cases hlt : i < p.next
+            · rw [if_pos hlt] at this; rw [if_pos (by omega)]; omega
+            · rw [if_neg hlt] at this; rw [if_neg (by omega)]; omega
+        · rw [he]; simp only
+          refine ⟨by have := qinv_enqueue ⟨p.next, len, some s⟩ h.q; rw [he] at this; exact this, ?_, ?_, ?_,
+            fun d hd => Nat.lt_succ_of_lt (h.dHi d hd), ?_⟩
+          · intro i
+            have := h.once i
+            simp only [Play.all, List.map_nil, List.map_cons, List.map_append, List.count_append,
+              List.count_cons, List.count_nil] at this ⊢
+            by_cases hi : i = p.next
+            · subst hi
+              rw [if_neg (Nat.lt_irrefl _)] at this; rw [if_pos (Nat.lt_succ_self _)]
+              simp only [BEq.rfl, if_true]; omega
+            · have hb : ¬ ((p.next == i) = true) := by simpa using fun e => hi e.symm
+              rw [if_neg hb]
+              by_cases hlt : i < p.next
+              · rw [if_pos hlt] at this; rw [if_pos (by omega)]; omega
+              · rw [if_neg hlt] at this; rw [if_neg (by omega)]; omega
+          · show (p.q.queue ++ [_]).Pairwise _
+            rw [List.pairwise_append]
+            refine ⟨h.qSorted, List.pairwise_singleton _ _, ?_⟩
+            intro a ha b hb; rw [List.mem_singleton.mp hb]; exact h.qHi a ha
+          · intro q hq
+            rcases List.mem_append.mp hq with hq | hq
+            · exact Nat.lt_succ_of_lt (h.qHi q hq)
+            · rw [List.mem_singleton.mp hq]; exact Nat.lt_succ_self _
+          · intro hh; have : p.q.overflowed = true := hh; rw [ho] at this; cases this
+  | flushQueued =>
+    unfold pstep; simp only
+    cases p.cur with
+    | none => exact h
+    | some s =>
+      simp only
+      split
+      · exact pinv_drainTo s h
+      · exact h
+  | join d =>
+    unfold pstep; simp only
+    split
+    · exact pinv_completeJoin d (pinv_drainTo d (pinv_firstJoin h))
+    · exact h
+  | deactivated =>
+    unfold pstep; simp only
+    refine ⟨qinv_init, ?_, List.Pairwise.nil, (fun q hq => by cases hq), h.dHi, (fun hh => by cases hh)⟩
+    intro i
+    have := h.once i
+    simp only [Play.all, List.map_nil, List.map_append, List.map_reverse, List.count_append,
+      List.count_nil, List.count_reverse] at this ⊢
+    omega
+  | setCur o => exact ⟨h.q, h.once, h.qSorted, h.qHi, h.dHi, h.ovf⟩
+  | setInfl o => exact ⟨h.q, h.once, h.qSorted, h.qHi, h.dHi, h.ovf⟩
+  | setConn b v => exact ⟨h.q, h.once, h.qSorted, h.qHi, h.dHi, h.ovf⟩
+  | setInPlay b v => exact ⟨h.q, h.once, h.qSorted, h.qHi, h.dHi, h.ovf⟩
+  | setBPhase b ph => exact ⟨h.q, h.once, h.qSorted, h.qHi, h.dHi, h.ovf⟩
+  | setClientComplete v => exact ⟨h.q, h.once, h.qSorted, h.qHi, h.dHi, h.ovf⟩
+
+theorem pinv_exec : ∀ (ops : List POp) {p : Play}, PInv p → PInv (pexec p ops)
+  | [], _, h => h
+  | a :: as, _, h => pinv_exec as (pinv_pstep a h)
+
+theorem pord_pstep {p : Play} (op : POp) (h : PInv p) (ho : POrd p) (hok : p.opOK op = true) :
+    POrd (pstep p op).1 := by
+  cases op with
+  | msg len =>
+    unfold pstep
+    simp only
+    cases hc : p.cur with
+    | none => exact ⟨ho.dOrder, ho.qNewer⟩
+    | some s =>
+      simp only
+      split
+      · exact ⟨ho.dOrder, ho.qNewer⟩
+      split
+      · exact ⟨ho.dOrder, ho.qNewer⟩
+      split
+      · exact ⟨ho.dOrder, ho.qNewer⟩
+      split
+      · -- direct: the queue is empty by `opOK`
+        rename_i h1 h2 h3 h4
+        have hg : p.goesDirect = true := by
+          unfold Play.goesDirect; rw [hc]; simp only
+          simp only [Bool.not_eq_true', Bool.not_eq_false] at h1 h2
+          simp only [Bool.and_eq_true] at h4 ⊢
+          refine ⟨⟨⟨⟨by simpa using h1, by simpa using h2⟩, by simpa using h3⟩, h4.1⟩, h4.2⟩
+        have he : p.q.queue = [] := by
+          unfold Play.opOK at hok; rw [hg] at hok; simpa using hok
+        refine ⟨?_, ?_⟩
+        · show ((s, _) :: p.deliv).Pairwise _
+          rw [List.pairwise_cons]
+          exact ⟨fun y hy _ => h.dHi y hy, ho.dOrder⟩
+        · intro q hq; rw [he] at hq; cases hq
+      · rcases enqueue_cases p.q ⟨p.next, len, some s⟩ with ⟨_, he⟩ | ⟨_, _, he⟩ | ⟨_, _, _, he⟩
+        · rw [he]; exact ⟨ho.dOrder, ho.qNewer⟩
+        · rw [he]; exact ⟨ho.dOrder, fun q hq => by cases hq⟩
+        · rw [he]; simp only
+          refine ⟨ho.dOrder, ?_⟩
+          intro q hq d hd
+          rcases List.mem_append.mp hq with hq | hq
+          · exact ho.qNewer q hq d hd
+          · rw [List.mem_singleton.mp hq]; exact h.dHi d hd
+  | flushQueued =>
+    unfold pstep; simp only
+    cases p.cur with
+    | none => exact ho
+    | some s =>
+      simp only
+      split
+      · exact pord_drainTo s h ho
+      · exact ho
+  | join d =>
+    unfold pstep; simp only
+    split
+    · exact pord_completeJoin d (pord_drainTo d (pinv_firstJoin h) (pord_firstJoin ho))
+    · exact ho
+  | deactivated => unfold pstep; exact ⟨ho.dOrder, fun q hq => by cases hq⟩
+  | setCur o => exact ⟨ho.dOrder, ho.qNewer⟩
+  | setInfl o => exact ⟨ho.dOrder, ho.qNewer⟩
+  | setConn b v => exact ⟨ho.dOrder, ho.qNewer⟩
+  | setInPlay b v => exact ⟨ho.dOrder, ho.qNewer⟩
+  | setBPhase b ph => exact ⟨ho.dOrder, ho.qNewer⟩
+  | setClientComplete v => exact ⟨ho.dOrder, ho.qNewer⟩
+
+/-- every op along the run respects `opOK` -/
+def pDisciplined (p : Play) : List POp → Bool
+  | [] => true
+  | a :: as => p.opOK a && pDisciplined (pstep p a).1 as
+
+theorem pord_exec : ∀ (ops : List POp) {p : Play}, PInv p → POrd p → pDisciplined p ops = true →
+    POrd (pexec p ops)
+  | [], _, _, ho, _ => ho
+  | a :: as, p, h, ho, hd => by
+    simp only [pDisciplined, Bool.and_eq_true] at hd
+    exact pord_exec as (pinv_pstep a h) (pord_pstep a h ho hd.1) hd.2
+
 end Gate.C24
